@@ -180,8 +180,9 @@ def check_world(world):
                 gs = set(got)
                 pred = ((may - set(q["aad"])) | set(q["aax"])) if sp == "abs" else ((may - set(q["ard"])) | set(q["arx"]))
                 if gs != pred and len(out["drift"]) < 3:
-                    out["drift"].append(f"paths_from_path({arg!r}) cwd={q['cwd']!r} = {got}, transcription predicts "
-                                        f"{sorted(pred)}; ignore files {world['ign']}")
+                    out["drift"].append(f"paths_from_path({arg!r}) cwd=<root>/{q['cwd']}: code lists {sorted(gs - pred)} which the "
+                                        f"transcription does not, transcription lists {sorted(pred - gs)} which the code does "
+                                        f"not; ignore files {world['ign']}")
                 spc = "absolute" if sp == "abs" else "non-absolute"
                 kind = "file" if q["name"] else "dir"
                 for clause, direction, files in (("NotIgnoredSelected", "missing", sorted(must - gs)),
@@ -234,12 +235,12 @@ SUITES = {
         ("pairs3", dict(MaxDepth=3, MaxIgn=2, Kinds={".sqlfluffignore"}, AllShapes=False,
                         Pats={"base", "sub", "dir", "keep1"}, ExtChoices={SQL}, CwdNames={"", "a"}),
          "complete tree of depth 3, up to two .sqlfluffignore files at every pair of directories x 4 pattern sets"),
-        ("kinds", dict(MaxDepth=2, MaxIgn=2, Kinds=set(KINDS), AllShapes=False, Pats={"base", "sub", "dir", "anch", "neg"},
+        ("kinds", dict(MaxDepth=2, MaxIgn=2, Kinds=set(KINDS), AllShapes=False, Pats={"base", "sub", "anch", "neg"},
                        ExtChoices={SQL}, CwdNames={"", "a"}),
-         "complete tree of depth 2, up to two ignore files of every kind x 5 pattern sets"),
+         "complete tree of depth 2, up to two ignore files of every kind x 4 pattern sets"),
         ("shapes", dict(MaxDepth=3, MaxIgn=1, Kinds={".sqlfluffignore"}, AllShapes=True,
-                        Pats={"base", "deep"}, ExtChoices={SQL}, CwdNames={"", "a"}),
-         "all 676 tree shapes of depth 3, one ignore file x 2 pattern sets"),
+                        Pats={"base"}, ExtChoices={SQL}, CwdNames={"", "a"}),
+         "all 676 tree shapes of depth 3, one ignore file, pattern set `x.sql`"),
     ],
 }
 MODEL_SCOPE = dict(MaxDepth=3, MaxIgn=1, Kinds={".sqlfluffignore"}, AllShapes=False,
@@ -339,7 +340,10 @@ def run(tier: str, seed: int) -> int:
             rep.drift.append(f"the transcription as written no longer violates RelativeWithinContract (TLC: {m2.violated})")
         # 2. S->C: enumerate every world/query of every suite, replay into the real code
         sampled = []
+        only = [x for x in os.environ.get("VF_C25_ONLY", "").split(",") if x]     # development aid: restrict the suites
         for name, consts, what in SUITES[tier]:
+            if only and name not in only:
+                continue
             with open(tabfile, "w") as fh:
                 json.dump(match_tables(consts["Pats"], consts["MaxDepth"]), fh)
             e = _tlc(dict(consts, FixInnerKeep=False), tabfile, invariants=["ContractConsistent"], timeout=3000)
@@ -364,7 +368,7 @@ def run(tier: str, seed: int) -> int:
             sampled += pool[: (4 if tier == "quick" else 40)]
         rep.exhaustive = True
         # 3. entry point with the default working_path (import-time cwd), a seeded sample of the worlds
-        rep.extra["entry_point_calls"] = entry_check(rep, sampled, base)
+        rep.extra["entry_point_calls"] = entry_check(rep, sampled if not only else sampled[:2], base)
     finally:
         shutil.rmtree(base, ignore_errors=True)
     rep.rule = ("TLC enumerates every world (tree shape, ignore-file placement, kind, pattern set) and every query "
